@@ -40,7 +40,35 @@
 (*   "elem"  kids = <<key, e1, .., en>>: the branch e_k with k = value of  *)
 (*           the key                                                       *)
 (*   "cat"   a catalog: name = its name, v = index of the governing        *)
-(*           controller in Ctrls, kids = one member per alternative        *)
+(*           controller in Ctrls, names = the names of its members IN THE  *)
+(*           ORDER THE CATALOG LISTS THEM, kids = the members in that same *)
+(*           order (names = << >> for every other kind of node)            *)
+(*                                                                         *)
+(* Three state machines share the definitions of this module:              *)
+(*   Spec        the catalogs / controllers / central controller           *)
+(*   BehindSpec  the same actions, restricted to the histories "select A,  *)
+(*               move ONE controller individually, re-select A or apply an *)
+(*               operator to A" (the operators take the configuration they *)
+(*               start from as an ARGUMENT, not the current one)           *)
+(*   ConfSpec    one Configuration OBJECT whose selections are assigned    *)
+(*               after its creation (Create / ReadId / Assign)             *)
+(*                                                                         *)
+(* More documentation used:                                                *)
+(*   - Catalog.__init__: ":raise BiogemeError: if incompatible Controller" *)
+(*     -- "Incompatible IDs between catalog [names] and controller         *)
+(*     [names]": the member names of every catalog governed by a           *)
+(*     controller are the controller's specification names (same list).    *)
+(*   - Catalog.from_dict: "Python does not guarantee the order of elements *)
+(*     of a dict ... If the order is critical, it is better to use the     *)
+(*     main constructor": the ORDER in which a catalog lists its members   *)
+(*     carries no meaning; a selection designates a member BY NAME         *)
+(*     (Controller.current_name / set_name, SelectionTuple.selection).     *)
+(*   - increased_controller(controller_name, current_config, step) etc.:   *)
+(*     ":param current_config: current configuration" -- the operator      *)
+(*     starts from the configuration it is GIVEN.                          *)
+(*   - Configuration: `selections` is a public property with a setter;     *)
+(*     "the string ID is a unique string representation of the             *)
+(*     configuration" (of its selections, whenever it is read).            *)
 (***************************************************************************)
 EXTENDS Integers, Sequences, FiniteSets, TLC, Json
 
@@ -61,7 +89,10 @@ CONSTANTS
                 \* sequences of length n cover "every configuration x every operator sequence of length n-1"
     MaxIter,    \* the iteration sub-process is explored when NConf <= MaxIter (Record = FALSE)
     DecSign,    \* -1.  (+1 is the mutant "decrease increases", used as negative control)
-    SevDecSign  \* -1.  (+1 is the mutant of the random operator)
+    SevDecSign, \* -1.  (+1 is the mutant of the random operator)
+    CSelSeq,    \* ConfSpec: the selections a Configuration object is created with / assigned: a sequence of
+                \* tuples, one entry per controller, -1 = the controller is not mentioned, else the index of the choice
+    CMaxLen     \* ConfSpec: length of the histories of the Configuration object
 
 VARIABLES
     idx,        \* controller -> index of its selected alternative (0-based)
@@ -70,8 +101,12 @@ VARIABLES
     done,       \* the recorded behaviour is closed
     iter,       \* an iteration over all configurations is in progress
     pending,    \* configurations the iteration has still to visit
-    nvis        \* number of configurations visited by the iteration in progress
-vars == <<idx, csel, hist, done, iter, pending, nvis>>
+    nvis,       \* number of configurations visited by the iteration in progress
+    cobj,       \* ConfSpec: the Configuration object [st |-> "none" | "unset" | "set", sel |-> its selections]
+    clog        \* ConfSpec: recorded history of the object
+vars    == <<idx, csel, hist, done, iter, pending, nvis>>
+cvars   == <<cobj, clog>>
+allvars == <<idx, csel, hist, done, iter, pending, nvis, cobj, clog>>
 
 COLON == 58
 SEMI  == 59
@@ -84,6 +119,10 @@ Root     == Len(Form)
 Rows     == 1..NRows
 Steps    == 1..MaxStep
 Dirs     == {"NE", "NW", "SE", "SW"}
+\* the public ways of moving ONE controller: Expression.select_expression, CentralController.set_controller,
+\* Controller.set_index, Controller.set_name, and set_controller of a SECOND central controller built on the
+\* same formula.  "any": the way is left to whoever replays the behaviour.
+Vias     == {"expression", "central", "index", "name", "second"}
 CatNodes == {i \in 1..Len(Form) : Form[i].op = "cat"}
 CtrlOf(i) == Form[i].v
 Mod(a, n) == ((a % n) + n) % n
@@ -103,8 +142,31 @@ WellFormed ==
     /\ \A c \in C : \A j, k \in 1..Size(c) : j # k => Ctrls[c].alts[j] # Ctrls[c].alts[k]
     /\ \A i \in 1..Len(Form) : \A q \in 1..Len(Form[i].kids) : Form[i].kids[q] < i
     /\ \A i \in CatNodes : CtrlOf(i) \in C /\ Len(Form[i].kids) = Size(CtrlOf(i)) /\ NoSep(Form[i].name)
+    \* the members of a catalog carry the names of the alternatives of its controller (the same SET; the order
+    \* is judged by OrderMatches below)
+    /\ \A i \in CatNodes : /\ Len(Form[i].names) = Size(CtrlOf(i))
+                            /\ SeqToSet(Form[i].names) = SeqToSet(Ctrls[CtrlOf(i)].alts)
     /\ \A c \in C : \E i \in CatNodes : CtrlOf(i) = c        \* every controller governs a catalog
 ASSUME WellFormed
+
+(***************************************************************************)
+(* The documented rule on the members of catalogs sharing a controller:    *)
+(* the names a catalog lists are the controller's names -- the same LIST.  *)
+(* A structure in which some catalog lists them in another order is        *)
+(* REFUSED when it is built (BiogemeError).  Should such a structure be    *)
+(* accepted nevertheless, a selection still designates a member by NAME:   *)
+(* everything below (MemberPos, Sync, ValSel, Resolve) is written for that *)
+(* reading, so the specification also says what an accepting               *)
+(* implementation has to present.                                          *)
+(***************************************************************************)
+OrderMatches(i) == Form[i].names = Ctrls[CtrlOf(i)].alts
+Misordered      == {i \in CatNodes : ~OrderMatches(i)}
+Refused         == Misordered # {}
+Verdict         == IF Refused THEN "refused" ELSE "accepted"
+
+\* position (0-based) at which catalog i lists the alternative k (0-based) of its controller
+MemberPos(i, k) ==
+    (CHOOSE j \in 1..Len(Form[i].names) : Form[i].names[j] = Ctrls[CtrlOf(i)].alts[k + 1]) - 1
 
 (***************************************************************************)
 (* Configurations and their identifiers.                                   *)
@@ -159,6 +221,36 @@ ParseId(s) ==
         ELSE [ok |-> FALSE, cfg |-> Zero]
 
 (***************************************************************************)
+(* SELECTIONS: what a Configuration object holds -- a choice for SOME of   *)
+(* the controllers (a configuration of the formula is a selection that     *)
+(* mentions all of them).  s[c] = -1: controller c is not mentioned.       *)
+(* The identifier is written and read like that of a configuration.        *)
+(***************************************************************************)
+NoSel        == [c \in C |-> 0 - 1]
+Mentioned(s) == SelectSeq(SortedCtrls, LAMBDA c : s[c] >= 0)   \* sorted by controller name
+PrintSel(s)  == JoinTerms(Mentioned(s), s)
+\* the sorted list of (controller, choice) pairs the object exposes
+PairsOf(s)   == LET m == Mentioned(s) IN
+                [r \in 1..Len(m) |-> [ctrl |-> Ctrls[m[r]].name, alt |-> Ctrls[m[r]].alts[s[m[r]] + 1]]]
+ParseSel(t)  ==
+    LET terms  == Split(t, SEMI)
+        pieces == [q \in 1..Len(terms) |-> Split(terms[q], COLON)]
+        shape  == \A q \in 1..Len(terms) : Len(pieces[q]) = 2
+        TermsOf(c) == {q \in 1..Len(terms) : pieces[q][1] = Ctrls[c].name}
+        known  == \A q \in 1..Len(terms) : \E c \in C :
+                     /\ pieces[q][1] = Ctrls[c].name
+                     /\ \E j \in 1..Size(c) : pieces[q][2] = Ctrls[c].alts[j]
+        atmost == \A c \in C : Cardinality(TermsOf(c)) <= 1
+    IN  IF shape /\ known /\ atmost
+        THEN [ok |-> TRUE,
+              sel |-> [c \in C |->
+                         IF TermsOf(c) = {} THEN 0 - 1
+                         ELSE LET q == CHOOSE u \in TermsOf(c) : TRUE IN
+                              (CHOOSE j \in 1..Size(c) : pieces[q][2] = Ctrls[c].alts[j]) - 1]]
+        ELSE [ok |-> FALSE, sel |-> NoSel]
+CSels == SeqToSet(CSelSeq)
+
+(***************************************************************************)
 (* The neighbourhood operators, as functions on configurations.            *)
 (***************************************************************************)
 Inc(f, c, s) == [f EXCEPT ![c] = Mod(f[c] + s, Size(c))]
@@ -210,7 +302,7 @@ SumVals(kids, q, sel, r) == IF q > Len(kids) THEN 0 ELSE ValSel(kids[q], sel, r)
 RECURSIVE Resolve(_, _)
 Resolve(i, f) ==
     LET n == Form[i] IN
-    IF n.op = "cat" THEN Resolve(n.kids[f[n.v] + 1], f)
+    IF n.op = "cat" THEN Resolve(n.kids[MemberPos(i, f[n.v]) + 1], f)     \* the member with the matching NAME
     ELSE [op |-> n.op, v |-> n.v, kids |-> [q \in 1..Len(n.kids) |-> Resolve(n.kids[q], f)]]
 
 RECURSIVE SumT(_, _, _)
@@ -227,38 +319,42 @@ TVal(t, r) ==
       [] t.op = "elem"  -> TVal(t.kids[1 + TVal(t.kids[1], r)], r)
 SumT(kids, q, r) == IF q > Len(kids) THEN 0 ELSE TVal(kids[q], r) + SumT(kids, q + 1, r)
 
-SelOf(f)   == [i \in CatNodes |-> f[CtrlOf(i)]]
+SelOf(f)   == [i \in CatNodes |-> MemberPos(i, f[CtrlOf(i)])]
 Values(f)  == [r \in Rows |-> TVal(Resolve(Root, f), r)]
 
 (***************************************************************************)
-(* State machine.                                                          *)
+(* State machine of the catalogs.                                          *)
 (***************************************************************************)
 Init == /\ idx = Zero
         /\ csel = SelOf(Zero)
         /\ hist = << >> /\ done = FALSE
         /\ iter = FALSE /\ pending = {} /\ nvis = 0
+        /\ cobj = [st |-> "none", sel |-> NoSel] /\ clog = << >>
 
-\* set_index: the controller takes index k and hands it to every catalog it governs
+\* set_index: the controller takes index k; every catalog it governs presents the member of that name
 SetOne(c, k) == /\ idx' = [idx EXCEPT ![c] = k]
-                /\ csel' = [i \in CatNodes |-> IF CtrlOf(i) = c THEN k ELSE csel[i]]
+                /\ csel' = [i \in CatNodes |-> IF CtrlOf(i) = c THEN MemberPos(i, k) ELSE csel[i]]
 \* one set_index per controller
 SetAll(f) == /\ idx' = f
-             /\ csel' = [i \in CatNodes |-> f[CtrlOf(i)]]
+             /\ csel' = SelOf(f)
 
 AsSeq(f) == [c \in 1..NC |-> f[c]]
-Step(op, a, b, d, s, circ, text, f, ret, allowed) ==
+\* `from`: the configuration an operator was GIVEN to start from; `via`: the way one controller was moved
+Step(op, a, b, d, s, circ, text, f, ret, allowed, from, via) ==
     [op |-> op, a |-> a, b |-> b, dir |-> d, step |-> s, circ |-> circ, text |-> text,
-     cfg |-> AsSeq(f), ret |-> ret, allowed |-> allowed]
+     cfg |-> AsSeq(f), ret |-> ret, allowed |-> allowed, from |-> AsSeq(from), via |-> via]
 Log(rec) == /\ hist' = IF Record THEN Append(hist, rec) ELSE hist
             /\ UNCHANGED <<done, iter, pending, nvis>>
 
-ASetIndex(c, k) ==
+\* the individual move of ONE controller (whatever the public way it is asked through)
+ASetIndex(c, k, via) ==
     /\ SetOne(c, k)
-    /\ Log(Step("setindex", c, k, "", 0, FALSE, << >>, [idx EXCEPT ![c] = k], 0, {}))
+    /\ Log(Step("setindex", c, k, "", 0, FALSE, << >>, [idx EXCEPT ![c] = k], 0, {}, idx, via))
 
+\* text = the identifier of the configuration that is ASKED for (cfg = the one expected afterwards)
 ASetConf(f) ==
     /\ SetAll(f)
-    /\ Log(Step("setconf", 0, 0, "", 0, FALSE, << >>, f, 0, {}))
+    /\ Log(Step("setconf", 0, 0, "", 0, FALSE, PrintId(f), f, 0, {}, idx, ""))
 
 \* the identifier of f with its terms listed in the order p
 AFromString(p, f) ==
@@ -266,37 +362,40 @@ AFromString(p, f) ==
         got  == ParseId(text)
     IN  /\ got.ok
         /\ SetAll(got.cfg)
-        /\ Log(Step("fromstring", 0, 0, "", 0, FALSE, text, got.cfg, 0, {}))
+        /\ Log(Step("fromstring", 0, 0, "", 0, FALSE, text, got.cfg, 0, {}, idx, ""))
 
-AIncrease(c, s) ==
-    /\ SetAll(Inc(idx, c, s))
-    /\ Log(Step("inc", c, 0, "", s, TRUE, << >>, Inc(idx, c, s), s, {}))
+\* The operators are functions of the configuration g they are given ("current_config"); the result is
+\* selected.  The state of the controllers before the call does not matter.
+AIncrease(g, c, s) ==
+    /\ SetAll(Inc(g, c, s))
+    /\ Log(Step("inc", c, 0, "", s, TRUE, << >>, Inc(g, c, s), s, {}, g, ""))
 
-ADecrease(c, s) ==
-    /\ SetAll(Dec(idx, c, s))
-    /\ Log(Step("dec", c, 0, "", s, TRUE, << >>, Dec(idx, c, s), s, {}))
+ADecrease(g, c, s) ==
+    /\ SetAll(Dec(g, c, s))
+    /\ Log(Step("dec", c, 0, "", s, TRUE, << >>, Dec(g, c, s), s, {}, g, ""))
 
-APair(c1, c2, d, s) ==
+APair(g, c1, c2, d, s) ==
     /\ c1 # c2
-    /\ SetAll(PairOp(idx, c1, c2, d, s))
-    /\ Log(Step("pair", c1, c2, d, s, TRUE, << >>, PairOp(idx, c1, c2, d, s), s, {}))
+    /\ SetAll(PairOp(g, c1, c2, d, s))
+    /\ Log(Step("pair", c1, c2, d, s, TRUE, << >>, PairOp(g, c1, c2, d, s), s, {}, g, ""))
 
-ASeveral(up, s) ==
-    \E g \in SeveralSet(idx, up, s) :
-        /\ SetAll(g)
-        /\ Log(Step(IF up THEN "sevinc" ELSE "sevdec", 0, 0, "", s, TRUE, << >>, g, SeveralCount(s),
-                    {AsSeq(h) : h \in SeveralSet(idx, up, s)}))
+ASeveral(g, up, s) ==
+    \E h \in SeveralSet(g, up, s) :
+        /\ SetAll(h)
+        /\ Log(Step(IF up THEN "sevinc" ELSE "sevdec", 0, 0, "", s, TRUE, << >>, h, SeveralCount(s),
+                    {AsSeq(x) : x \in SeveralSet(g, up, s)}, g, ""))
 
+\* Controller.modify_controller: another individual move, relative to the controller's own index
 AModify(c, delta, circ) ==
     /\ delta # 0
     /\ SetAll(Modify(idx, c, delta, circ))
-    /\ Log(Step("modify", c, 0, "", delta, circ, << >>, Modify(idx, c, delta, circ), 0, {}))
+    /\ Log(Step("modify", c, 0, "", delta, circ, << >>, Modify(idx, c, delta, circ), 0, {}, idx, ""))
 
 \* Iteration over the formula: every configuration is selected in turn, in no specified order.
 \* Record = TRUE: one closing step (the order, hence the configuration left behind, is free).
 AIterate ==
     /\ Record
-    /\ hist' = Append(hist, Step("iterate", 0, 0, "", 0, FALSE, << >>, idx, NConf, {}))
+    /\ hist' = Append(hist, Step("iterate", 0, 0, "", 0, FALSE, << >>, idx, NConf, {}, idx, ""))
     /\ done' = TRUE
     /\ UNCHANGED <<idx, csel, iter, pending, nvis>>
 \* Record = FALSE: the sub-process itself
@@ -311,26 +410,121 @@ IterEnd   == /\ iter /\ pending = {}
              /\ iter' = FALSE /\ nvis' = 0
              /\ UNCHANGED <<idx, csel, hist, done, pending>>
 
+\* every operator applied to the CURRENT configuration
 Operate ==
-    \/ \E c \in C : \E k \in 0..(Size(c) - 1) : ASetIndex(c, k)
+    \/ \E c \in C : \E k \in 0..(Size(c) - 1) : ASetIndex(c, k, "any")
     \/ \E f \in Configs : ASetConf(f)
     \/ \E p \in Perms : \E f \in Configs : AFromString(p, f)
-    \/ \E c \in C : \E s \in Steps : AIncrease(c, s) \/ ADecrease(c, s)
-    \/ \E c1, c2 \in C : \E d \in Dirs : \E s \in Steps : APair(c1, c2, d, s)
-    \/ \E up \in BOOLEAN : \E s \in Steps : ASeveral(up, s)
+    \/ \E c \in C : \E s \in Steps : AIncrease(idx, c, s) \/ ADecrease(idx, c, s)
+    \/ \E c1, c2 \in C : \E d \in Dirs : \E s \in Steps : APair(idx, c1, c2, d, s)
+    \/ \E up \in BOOLEAN : \E s \in Steps : ASeveral(idx, up, s)
     \/ \E c \in C : \E delta \in (0 - MaxStep)..MaxStep : \E circ \in BOOLEAN : AModify(c, delta, circ)
 
-Next == \/ /\ ~done /\ ~iter /\ Len(hist) < MaxLen
-           /\ IF Record /\ FirstSetConf /\ hist = << >>
-              THEN \E f \in Configs : ASetConf(f)
-              ELSE Operate \/ AIterate
-        \/ IterStart \/ IterStep \/ IterEnd
-Spec == Init /\ [][Next]_vars
+CatNext == \/ /\ ~done /\ ~iter /\ Len(hist) < MaxLen
+              /\ IF Record /\ FirstSetConf /\ hist = << >>
+                 THEN \E f \in Configs : ASetConf(f)
+                 ELSE Operate \/ AIterate
+           \/ IterStart \/ IterStep \/ IterEnd
+Next == CatNext /\ UNCHANGED cvars
+Spec == Init /\ [][Next]_allvars
+
+(***************************************************************************)
+(* Histories that move a controller behind the central controller's back   *)
+(* (Record = TRUE, three steps):                                           *)
+(*   1. a configuration A is selected;                                     *)
+(*   2. ONE controller is moved individually, in each of the public ways   *)
+(*      (or by modify_controller, one position);                           *)
+(*   3. A is selected again (as a configuration or through its identifier  *)
+(*      in any order of the terms), or a neighbourhood operator is applied *)
+(*      to A -- the configuration the caller still holds.                  *)
+(* Whatever step 2 did, step 3 leads where it leads from A.                *)
+(***************************************************************************)
+Chosen == hist[1].cfg          \* the configuration A of step 1 (a tuple = a function on C)
+BehindNext ==
+    /\ Record /\ ~done /\ ~iter
+    /\ IF Len(hist) = 0 THEN \E f \in Configs : ASetConf(f)
+       ELSE IF Len(hist) = 1 THEN
+            \/ \E c \in C : \E k \in (0..(Size(c) - 1)) \ {idx[c]} : \E via \in Vias : ASetIndex(c, k, via)
+            \/ \E c \in C : \E delta \in {0 - 1, 1} : \E circ \in BOOLEAN : AModify(c, delta, circ)
+       ELSE IF Len(hist) = 2 THEN
+            \/ ASetConf(Chosen)
+            \/ \E p \in Perms : AFromString(p, Chosen)
+            \/ \E c \in C : \E s \in Steps : AIncrease(Chosen, c, s) \/ ADecrease(Chosen, c, s)
+            \/ \E c1, c2 \in C : \E d \in Dirs : \E s \in Steps : APair(Chosen, c1, c2, d, s)
+            \/ \E up \in BOOLEAN : \E s \in Steps : ASeveral(Chosen, up, s)
+       ELSE FALSE
+BehindSpec == Init /\ [][BehindNext /\ UNCHANGED cvars]_allvars
+
+\* selecting A again restores A, and an operator given A ignores the move made in between
+BehindInv ==
+    (Record /\ Len(hist) = 3 /\ hist[2].op \in {"setindex", "modify"}) =>
+        LET last == hist[3] IN
+        /\ last.op \in {"inc", "dec", "pair", "sevinc", "sevdec"} => last.from = hist[1].cfg
+        /\ last.op \in {"setconf", "fromstring"} => idx = hist[1].cfg /\ csel = SelOf(hist[1].cfg)
+        /\ last.op = "inc" => idx = Inc(hist[1].cfg, last.a, last.step)
+        /\ last.op = "dec" => idx = Dec(hist[1].cfg, last.a, last.step)
+        /\ last.op = "pair" => idx = PairOp(hist[1].cfg, last.a, last.b, last.dir, last.step)
+        /\ last.op \in {"sevinc", "sevdec"} => idx \in SeveralSet(hist[1].cfg, last.op = "sevinc", last.step)
+
+(***************************************************************************)
+(* State machine of ONE Configuration object (ConfSpec).                   *)
+(*   Create(s)  the object is built with the selections s (CreateEmpty:    *)
+(*              without selections)                                        *)
+(*   ReadId     its identifier is read (get_string_id, str, repr), it is   *)
+(*              compared / hashed, and converted back from the identifier  *)
+(*   Assign(s)  new selections are assigned through the public setter      *)
+(* Whenever it is read, the object is described by its CURRENT selections. *)
+(* Each recorded step carries the observables AFTER the step: identifier,  *)
+(* sorted pairs, and for every selection of CSelSeq whether an object      *)
+(* built from it is equal to this one.                                     *)
+(***************************************************************************)
+CObs(op, s, isset) ==
+    [op |-> op, sel |-> AsSeq(s), set |-> isset,
+     id |-> IF isset THEN PrintSel(s) ELSE << >>,
+     pairs |-> IF isset THEN PairsOf(s) ELSE << >>,
+     eq |-> [k \in 1..Len(CSelSeq) |-> isset /\ PrintSel(CSelSeq[k]) = PrintSel(s)]]
+
+CCreate(s) == /\ cobj.st = "none"
+              /\ cobj' = [st |-> "set", sel |-> s]
+              /\ clog' = Append(clog, CObs("create", s, TRUE))
+CCreateEmpty == /\ cobj.st = "none"
+                /\ cobj' = [st |-> "unset", sel |-> NoSel]
+                /\ clog' = Append(clog, CObs("empty", NoSel, FALSE))
+CReadId == /\ cobj.st = "set"
+           /\ clog' = Append(clog, CObs("read", cobj.sel, TRUE))
+           /\ UNCHANGED cobj
+CAssign(s) == /\ cobj.st \in {"unset", "set"}
+              /\ cobj' = [st |-> "set", sel |-> s]
+              /\ clog' = Append(clog, CObs("assign", s, TRUE))
+
+ConfNext == /\ Len(clog) < CMaxLen
+            /\ \/ \E s \in CSels : CCreate(s) \/ CAssign(s)
+               \/ CCreateEmpty
+               \/ CReadId
+ConfSpec == Init /\ [][ConfNext /\ UNCHANGED vars]_allvars
+
+\* the identifier determines the selections uniquely ...
+CIdsUnique == \A s, t \in CSels : PrintSel(s) = PrintSel(t) => AsSeq(s) = AsSeq(t)
+\* ... and converts back to them (also for the full configurations, where both readings agree)
+CRoundTrip == cobj.st = "set" =>
+                  LET got == ParseSel(PrintSel(cobj.sel)) IN
+                  /\ got.ok /\ AsSeq(got.sel) = AsSeq(cobj.sel)
+                  /\ PrintSel(got.sel) = PrintSel(cobj.sel)
+                  /\ (\A c \in C : cobj.sel[c] >= 0) => /\ PrintSel(cobj.sel) = PrintId(cobj.sel)
+                                                         /\ AsSeq(ParseId(PrintSel(cobj.sel)).cfg) = AsSeq(cobj.sel)
+\* what was recorded last describes the current selections (never those of an earlier step)
+CCurrent == (clog # << >> /\ cobj.st = "set") =>
+                LET last == clog[Len(clog)] IN
+                /\ last.sel = AsSeq(cobj.sel) /\ last.id = PrintSel(cobj.sel)
+                /\ \A k \in 1..Len(CSelSeq) : last.eq[k] <=> (AsSeq(CSelSeq[k]) = AsSeq(cobj.sel))
+CEmitInv == (Len(clog) = CMaxLen /\ CMaxLen > 0) =>
+                PrintT(ToJson([kind |-> "confobj", label |-> Label, steps |-> clog]))
 
 (***************************************************************************)
 (* The property, on the model.                                             *)
 (***************************************************************************)
-Valid == idx \in Configs /\ csel \in [CatNodes -> 0..(MaxSize - 1)]
+Valid == /\ idx \in Configs
+         /\ \A i \in CatNodes : csel[i] \in 0..(Len(Form[i].kids) - 1)
 
 \* exactly one configuration per combination of controller choices
 CountInv == Cardinality(Configs) = NConf
@@ -344,8 +538,10 @@ IdCanonical ==
     /\ \A a, b \in 1..NC : a < b => NM!Less(Ctrls[SortedCtrls[a]].name, Ctrls[SortedCtrls[b]].name)
     /\ \A p \in Perms : PrintId(ParseId(JoinTerms(p, idx)).cfg) = PrintId(idx)
 
-\* all catalogs of a controller present the alternative the controller selects
-Sync == \A i \in CatNodes : csel[i] = idx[CtrlOf(i)]
+\* all catalogs of a controller present the alternative the controller selects: the member of that NAME
+Sync == \A i \in CatNodes : Form[i].names[csel[i] + 1] = Ctrls[CtrlOf(i)].alts[idx[CtrlOf(i)] + 1]
+\* in a structure that is not refused, that member stands at the controller's index
+SyncPos == ~Refused => \A i \in CatNodes : csel[i] = idx[CtrlOf(i)]
 
 \* the configured formula evaluates like the formula written out by hand
 ValueAgrees == \A r \in Rows : ValSel(Root, csel, r) = TVal(Resolve(Root, idx), r)
@@ -387,11 +583,12 @@ IterProgress == iter /\ pending = {} => nvis = NConf
 ConfRow ==
     [kind |-> "conf", label |-> Label, cfg |-> AsSeq(idx), id |-> PrintId(idx),
      vals |-> Values(idx), tree |-> Resolve(Root, idx),
-     sel |-> {[cat |-> Form[i].name, alt |-> Ctrls[CtrlOf(i)].alts[csel[i] + 1]] : i \in CatNodes},
+     sel |-> {[cat |-> Form[i].name, alt |-> Form[i].names[csel[i] + 1]] : i \in CatNodes},
      perms |-> {JoinTerms(p, idx) : p \in Perms}]
 Meta ==
     [kind |-> "meta", label |-> Label, nconf |-> NConf, nops |-> NOperators, ids |-> AllIds,
-     sorted |-> [r \in 1..NC |-> Ctrls[SortedCtrls[r]].name]]
+     sorted |-> [r \in 1..NC |-> Ctrls[SortedCtrls[r]].name],
+     verdict |-> Verdict, misordered |-> {Form[i].name : i \in Misordered}]
 TableInv == (~Record /\ ~iter) => PrintT(ToJson(ConfRow))
 MetaInv  == (idx = Zero /\ hist = << >> /\ ~iter) => PrintT(ToJson(Meta))
 
